@@ -326,8 +326,193 @@ Proof.
            apply Hg. intros Hd. apply Hb. right. exact Hd.
         -- intros b [<-|Hb] x Hx; [rewrite N.eqb_refl, <- Hpa; apply Hrest, Hx|].
            destruct (b =? a) eqn:Eb; [apply N.eqb_eq in Eb; subst b; contradiction|]. apply N.eqb_neq in Eb. rewrite (Q2 b Eb) in Hx. apply (Hst b Hb x Hx).
-      * exact E.
       * exists g'. split; [exact Hs'|]. split.
         -- intros b Hb. apply Hg'. intros Hi. apply Hb. apply in_app_iff in Hi. cbn [app In]. destruct Hi as [Hi|[<-|Hi]]; [right; apply in_or_app; left; exact Hi | left; reflexivity | right; apply in_or_app; right; exact Hi].
         -- intros b Hb. apply Hst'. cbn [app In] in Hb. apply in_app_iff. destruct Hb as [<-|Hb]; [right; left; reflexivity|]. apply in_app_iff in Hb. destruct Hb as [Hb|Hb]; [left; exact Hb | right; right; exact Hb].
 Qed.
+
+Lemma queue_fold_same {A} (g : pool -> A -> pool) : (forall s x, p_queue (g s x) = p_queue s) ->
+  forall l s, p_queue (fold_left g l s) = p_queue s.
+Proof. intros Hg l. induction l as [|x l IH]; intros s; cbn [fold_left]; [reflexivity | rewrite IH; apply Hg]. Qed.
+Lemma queue_all_remove : forall t s, p_queue (all_remove t s) = p_queue s.
+Proof. intros. unfold all_remove. destruct (all_has t s); reflexivity. Qed.
+
+(* promoteExecutables over the dirty accounts leaves no executable head anywhere *)
+Lemma promote_executables_NX : forall D st, SInv st -> GInv st -> NXD D st -> NoDup D -> NX (promote_executables D st).
+Proof.
+  intros D st HS HG [HW HNx] Hnd. unfold promote_executables.
+  destruct (fold_left (fun '(p, d, s) a => let '(p1, d1, s1) := q_promote_one a s in (p ++ p1, d ++ d1, s1)) D ([], [], st))
+    as [[P Dr] st1] eqn:E.
+  destruct (promote_acc_SL D st [] [] [] P Dr st1 (SL_of_SInv _ HS)) as [L1 [S1 [PO1 [M1 [D1 [_ [Pe1 [C1 Ch1]]]]]]]]; try exact E.
+  { split; [intros t [] | intros t pl [] | intros t ql [] | constructor]. }
+  { intros y. cbn. tauto. }
+  { intros y []. }
+  { intros y []. }
+  destruct (promote_acc_sched st HS HG D [] st [] [] P Dr st1 Hnd) as [_ [Pe [Pn Ch]]]; try reflexivity; try exact E.
+  { intros a _ []. }
+  { exists (fun b => pn_get b st). split; [intros b; reflexivity | intros b _; reflexivity]. }
+  destruct (promote_acc_nx st HS HG HW D [] st [] [] P Dr st1 Hnd) as [g [Hs [Hout Hin]]]; try reflexivity; try exact E.
+  { intros a _ []. }
+  { exists (fun b => pn_get b st). split; [intros b; reflexivity|]. split; [intros b _; reflexivity | intros b []]. }
+  rewrite app_nil_r in Hout, Hin.
+  assert (G1 : GInv st1) by (intros a; apply (g_at_same st); [rewrite Pe; reflexivity | rewrite Pn; reflexivity | exact Ch | apply HG]).
+  assert (Hs1 : Sched (fun b => pn_get b st1) P g).
+  { eapply Sched_ext; [|exact Hs]. intros b. unfold pn_get. rewrite Pn, Ch. reflexivity. }
+  destruct (promote_fold_G P st1 L1 g S1 PO1 (fun t Ht => proj2 (M1 t) (or_introl Ht)) G1 Hs1) as [_ Hpn2].
+  destruct (promote_fold_SL P st1 L1 S1 PO1 (fun t Ht => proj2 (M1 t) (or_introl Ht))) as [_ [Q2 [_ Ch2]]].
+  set (st2 := fold_left (fun s t => promote_tx t s) P st1) in *.
+  set (st3 := fold_left (fun s t => all_remove t s) Dr st2).
+  pose proof (core_priced_removed (length Dr) st3) as Hc. core_inv Hc.
+  assert (Hq : p_queue (priced_removed (length Dr) st3) = p_queue st1).
+  { rewrite Equeue. unfold st3. rewrite (queue_fold_same (fun s t => all_remove t s) (fun s t => queue_all_remove t s)). exact Q2. }
+  assert (Hp : forall b, pn_get b (priced_removed (length Dr) st3) = g b).
+  { intros b. rewrite <- Hpn2. unfold pn_get. rewrite pn_priced_removed, Echain. unfold st3.
+    rewrite (pn_fold_same (fun s t => all_remove t s) (fun s t => pn_all_remove t s)), chain_fold_all_remove. reflexivity. }
+  intros b x Hx. rewrite Hq in Hx. rewrite Hp.
+  destruct (in_dec N.eq_dec b D) as [Hb|Hb]; [apply (Hin b Hb x Hx)|].
+  destruct (Hout b Hb) as [Hg Hqb]. rewrite Hg. rewrite Hqb in Hx. apply (HNx b Hb x Hx).
+Qed.
+
+(* truncatePending / truncateQueue *)
+Lemma trunc_one_queue_pn : forall a st, p_queue (trunc_one a st) = p_queue st /\ forall b, pn_get b (trunc_one a st) <= pn_get b st.
+Proof.
+  intros a st. unfold trunc_one. destruct (p_pending st a) as [l|]; [|split; [reflexivity | intros; lia]].
+  destruct (list_cap (Nat.pred (l_len l)) l) as [caps l'].
+  assert (H : forall cs s, p_queue (fold_left (fun s t => pn_set_if_lower a (t_nonce t) (all_remove t s)) cs s) = p_queue s /\
+                           forall b, pn_get b (fold_left (fun s t => pn_set_if_lower a (t_nonce t) (all_remove t s)) cs s) <= pn_get b s).
+  { induction cs as [|c cs IH]; intros s; cbn [fold_left]; [split; [reflexivity | intros; lia]|].
+    destruct (IH (pn_set_if_lower a (t_nonce c) (all_remove c s))) as [I1 I2]. split.
+    - rewrite I1. pose proof (core_pn_set_if_lower a (t_nonce c) (all_remove c s)) as Hc. core_inv Hc. rewrite Equeue. apply queue_all_remove.
+    - intros b. specialize (I2 b). rewrite pn_set_if_lower_get in I2.
+      assert (Hg : forall b0, pn_get b0 (all_remove c s) = pn_get b0 s) by (intros b0; unfold pn_get; rewrite pn_all_remove; unfold all_remove; destruct (all_has c s); reflexivity).
+      destruct (b =? a) eqn:Eb; [apply N.eqb_eq in Eb; subst b; rewrite Hg in I2; lia | rewrite Hg in I2; exact I2]. }
+  destruct (H caps (put_pending a l' st)) as [H1 H2]. pose proof (core_priced_removed (length caps) (fold_left (fun s t => pn_set_if_lower a (t_nonce t) (all_remove t s)) caps (put_pending a l' st))) as Hc. core_inv Hc.
+  split.
+  - rewrite Equeue, H1. unfold put_pending. rewrite queue_chk. reflexivity.
+  - intros b. unfold pn_get at 1. rewrite pn_priced_removed, Echain.
+    change (match p_pn ?s b with Some n => n | None => ch_nonce (p_chain ?s) b end) with (pn_get b s).
+    specialize (H2 b). unfold pn_get in H2 at 2. unfold put_pending in H2. rewrite pn_chk, chain_chk in H2. exact H2.
+Qed.
+
+Lemma truncate_pending_GN : forall st, SInv st -> GInv st -> NX st -> GInv (truncate_pending st) /\ NX (truncate_pending st).
+Proof.
+  intros st HS HG HN. apply (truncate_pending_pres (fun s => GInv s /\ NX s)); [| |exact HS | split; assumption].
+  - intros a s S1 [G1 N1]. split; [apply trunc_one_G; assumption|]. destruct (trunc_one_queue_pn a s) as [Q P].
+    intros b x Hx. rewrite Q in Hx. pose proof (N1 b x Hx). pose proof (P b). lia.
+  - intros s [G1 N1]. split; [eapply GInv_core_pn; [apply core_set_fuel | reflexivity | exact G1] | exact N1].
+Qed.
+
+Lemma q_truncate_loop_qsub : forall addrs drop removed st b x,
+  in_opt x (p_queue (snd (q_truncate_loop addrs drop removed st)) b) -> in_opt x (p_queue st b).
+Proof.
+  induction addrs as [|a addrs IH]; intros drop removed st b x Hx; cbn [q_truncate_loop] in Hx; [exact Hx|].
+  destruct drop; [exact Hx|]. destruct (p_queue st a) as [l|]; [|eapply IH, Hx].
+  assert (Hf : forall V s, in_opt x (p_queue (fold_left (fun s t => q_remove a t s) V s) b) -> in_opt x (p_queue s b)).
+  { induction V as [|v V IHV]; intros s H; cbn [fold_left] in H; [exact H|]. apply IHV in H. eapply queue_q_remove_sub, H. }
+  destruct (Nat.leb _ _); apply IH in Hx; apply Hf in Hx; exact Hx.
+Qed.
+
+Lemma truncate_queue_NX : forall st, SInv st -> NX st -> NX (truncate_queue st).
+Proof.
+  intros st HS HN. destruct (truncate_queue_SInv st HS) as [_ [_ [Ch _]]].
+  assert (N : p_pn (truncate_queue st) = p_pn st /\ forall b x, in_opt x (p_queue (truncate_queue st) b) -> in_opt x (p_queue st b)).
+  { unfold truncate_queue. destruct (Nat.leb _ _); [split; [reflexivity | intros b x H; exact H]|].
+    pose proof (q_truncate_loop_pn (queue_by_beat st) (queue_count st - N.to_nat (c_gqueue (p_cfg st))) [] st) as H.
+    pose proof (q_truncate_loop_qsub (queue_by_beat st) (queue_count st - N.to_nat (c_gqueue (p_cfg st))) [] st) as Hq.
+    destruct (q_truncate_loop _ _ _ _) as [removed st1]. cbn [snd] in *.
+    split; [rewrite pn_priced_removed, (pn_fold_same (fun s t => all_remove t s) (fun s t => pn_all_remove t s)); exact H|].
+    intros b x Hx. pose proof (core_priced_removed (length removed) (fold_left (fun s t => all_remove t s) removed st1)) as Hc. core_inv Hc.
+    rewrite Equeue, (queue_fold_same (fun s t => all_remove t s) (fun s t => queue_all_remove t s)) in Hx. apply Hq, Hx. }
+  destruct N as [N Q]. intros b x Hx. unfold pn_get. rewrite N, Ch. apply (HN b x (Q b x Hx)).
+Qed.
+
+Definition SGX (s : pool) : Prop := SInv s /\ GInv s /\ NX s.
+
+Lemma NX_NXD : forall st, NX st <-> NXD [] st.
+Proof.
+  intros st. split; [intros H; split; [intros a x Hx; pose proof (H a x Hx); lia | intros a _; apply H] | intros [_ H] a; apply H; intros []].
+Qed.
+
+(* the whole Add cycle *)
+Lemma pool_Add_SGX : forall txs st, SGX st -> (forall t, In t txs -> okt (p_cfg st) t) -> SGX (fst (pool_Add txs st)).
+Proof.
+  intros txs st [HS [HG HN]] Hk. unfold pool_Add. destruct (negb _); [split; [exact HS | split; assumption]|].
+  match goal with |- context [add_txs_locked txs ?e st []] =>
+    pose proof (add_txs_locked_SGN txs e st [] (conj HS (conj HG (proj1 (NX_NXD st) HN))) Hk) as R1;
+    pose proof (add_txs_locked_dirty_NoDup txs e st [] (NoDup_nil _)) as Hd;
+    destruct (add_txs_locked txs e st []) as [[st1 e1] d] end.
+  cbn [fst snd] in *. destruct R1 as [S1 [G1 N1]]. unfold run_reorg_promote.
+  pose proof (promote_executables_RS d st1 S1) as [S2 _]. pose proof (promote_executables_G d st1 S1 G1 Hd) as G2.
+  pose proof (promote_executables_NX d st1 S1 G1 N1 Hd) as N2.
+  pose proof (truncate_pending_RS _ S2) as [S3 _]. destruct (truncate_pending_GN _ S2 G2 N2) as [G3 N3].
+  destruct (truncate_queue_SInv _ S3) as [S4 _]. pose proof (truncate_queue_G _ S3 G3) as G4. pose proof (truncate_queue_NX _ S3 N3) as N4.
+  split; [eapply SInv_core; [apply core_set_changes | exact S4]|]. split; [eapply GInv_core_pn; [apply core_set_changes | reflexivity | exact G4]|].
+  apply NX_NXD. eapply NXD_core_pn; [apply core_set_changes | reflexivity | apply NX_NXD, N4].
+Qed.
+
+Lemma pool_SetGasTip_NX : forall tip st, SInv st -> GInv st -> NX st -> NX (pool_SetGasTip tip st).
+Proof.
+  intros tip st HS HG HN. apply NX_NXD. apply NX_NXD in HN. unfold pool_SetGasTip.
+  assert (G0 : SGN [] (set_gastip st tip)).
+  { split; [eapply SInv_core; [apply core_set_gastip | exact HS]|]. split; [eapply GInv_core_pn; [apply core_set_gastip | reflexivity | exact HG] | eapply NXD_core_pn; [apply core_set_gastip | reflexivity | exact HN]]. }
+  destruct (p_gastip st <? tip); [|apply G0].
+  eapply NXD_core_pn; [apply core_priced_removed | apply pn_priced_removed|].
+  generalize (filter (fun t => t_tip t <? tip) (p_all (set_gastip st tip))). intros drop.
+  revert G0. generalize (set_gastip st tip). induction drop as [|d drop IH]; intros s [S1 [G1 N1]]; cbn [fold_left]; [exact N1|].
+  apply IH. change FUEL with (S (S 4)). split; [apply (remove_tx_SInv 4 d false s S1)|]. split; [apply remove_tx_G; assumption | apply remove_tx_NX; assumption].
+Qed.
+
+Lemma flatten_pending_NX : forall a st, NX st -> NX (snd (flatten_pending a st)).
+Proof.
+  intros a st HN. unfold flatten_pending. destruct (p_pending st a) as [l|]; [|exact HN]. unfold list_flatten. cbn [snd].
+  intros b x Hx. apply (HN b x Hx).
+Qed.
+Lemma flatten_queue_NX : forall a st, NX st -> NX (snd (flatten_queue a st)).
+Proof.
+  intros a st HN. unfold flatten_queue. destruct (p_queue st a) as [l|] eqn:Eq; [|exact HN]. unfold list_flatten. cbn [snd].
+  intros b x Hx. cbn in Hx. unfold upd in Hx. change (pn_get b (set_queue st (upd (p_queue st) a (Some (with_txs l (l_txs l) (l_total l) (Some match l_cache l with Some c => c | None => l_txs l end)))))) with (pn_get b st).
+  destruct (b =? a) eqn:E; [|apply (HN b x Hx)]. apply N.eqb_eq in E. subst b. apply (HN a x). rewrite Eq. exact Hx.
+Qed.
+Lemma pool_ContentFrom_NX : forall a st, NX st -> NX (snd (pool_ContentFrom a st)).
+Proof.
+  intros a st HN. unfold pool_ContentFrom. pose proof (flatten_pending_NX a st HN) as H1. destruct (flatten_pending a st) as [p st1].
+  pose proof (flatten_queue_NX a st1 H1) as H2. destruct (flatten_queue a st1) as [q st2]. exact H2.
+Qed.
+Lemma pool_Content_NX : forall st, NX st -> NX (snd (pool_Content st)).
+Proof.
+  intros st HN. unfold pool_Content. generalize (c_accts (p_cfg st)). intros accts.
+  assert (H : forall acc s, NX s -> NX (snd (fold_left (fun '(acc, s) a => let '(pq, s') := pool_ContentFrom a s in (acc ++ [pq], s')) accts (acc, s)))).
+  { induction accts as [|a accts IH]; intros acc s Hs; cbn [fold_left snd]; [exact Hs|].
+    pose proof (pool_ContentFrom_NX a s Hs) as H1. destruct (pool_ContentFrom a s) as [pq s']. apply IH, H1. }
+  apply H, HN.
+Qed.
+Lemma pool_Pending_NX : forall st, NX st -> NX (snd (pool_Pending st)).
+Proof.
+  intros st HN. unfold pool_Pending. generalize (c_accts (p_cfg st)). intros accts.
+  assert (H : forall acc s, NX s -> NX (snd (fold_left (fun '(acc, s) a => let '(p, s') := flatten_pending a s in (acc ++ [p], s')) accts (acc, s)))).
+  { induction accts as [|a accts IH]; intros acc s Hs; cbn [fold_left snd]; [exact Hs|].
+    pose proof (flatten_pending_NX a s Hs) as H1. destruct (flatten_pending a s) as [p s']. apply IH, H1. }
+  apply H, HN.
+Qed.
+
+(* histories without head changes *)
+Lemma step_SGX : forall st o, SGX st -> op_ok (p_cfg st) o -> SGX (step st o).
+Proof.
+  intros st [txs|b o n|tip| |a| ] [HS [HG HN]] Hok; cbn [step].
+  - apply pool_Add_SGX; [split; [exact HS | split; assumption] | exact Hok].
+  - destruct Hok.
+  - split; [apply (pool_SetGasTip_RS tip st HS)|]. split; [apply pool_SetGasTip_G; assumption | apply pool_SetGasTip_NX; assumption].
+  - split; [apply (pool_Content_RS st HS)|]. split; [apply pool_Content_G, HG | apply pool_Content_NX, HN].
+  - split; [apply (pool_ContentFrom_RS a st HS)|]. split; [apply pool_ContentFrom_G, HG | apply pool_ContentFrom_NX, HN].
+  - split; [apply (pool_Pending_RS st HS)|]. split; [apply pool_Pending_G, HG | apply pool_Pending_NX, HN].
+Qed.
+
+Lemma history_SGX : forall h st, SGX st -> Forall (op_ok (p_cfg st)) h -> SGX (run_history st h).
+Proof.
+  unfold run_history. induction h as [|o h IH]; intros st H Hok; cbn [fold_left]; [exact H|].
+  inversion Hok as [|? ? Ho Hh]; subst. pose proof (step_SGX st o H Ho) as H1.
+  destruct (step_RS st o (proj1 H) Ho) as [_ [C1 _]]. apply IH; [exact H1 | rewrite C1; exact Hh].
+Qed.
+
+Lemma NX_init : forall c tip g, NX (pool_init c tip g).
+Proof. intros c tip g a x H. destruct H. Qed.
